@@ -202,6 +202,33 @@ func init() {
 			Quick:  map[string]int{"GRID": 2, "GRIDMAG": 36, "NUMSHAPES": 3, "STRSHAPES": 3, "ARRSHAPES": 3},
 			Panic:  "inconclusive"},
 	}})
+	reg(&Property{ID: "C20", Units: []Unit{
+		{Name: "two-files", Harness: "pkg/generator:HarnessC20", Layer: "L3", SameEmits: true, Only: "C20.",
+			Desc:   "two schema files (order.json refers to money.json; both carry a different definition named Base used through allOf) served by a harness Loader over a virtual file system; three layouts (two packages, one package and file, two packages whose import paths share the last element) x both argument orders x with/without the second file on the command line: outputs carry exactly the mapped names, the emitted packages are type-checked TOGETHER (cross-package references qualified and imported), every root type lands in the package mapped to its id only, and all explored orders emit identical files",
+			Bounds: "F=2 files, concrete ids/mappings, one symbolic constraint; the real file system (symlinks, extension probing), HTTP refs, F>2 and --schema-root-type mappings are not covered; os.Stat is a virtual-file-system stub",
+			Panic:  "inconclusive"},
+	}})
+	reg(&Property{ID: "C10", Units: []Unit{
+		{Name: "inline-vs-ref", Harness: "pkg/generator:HarnessC10", Layer: "L3",
+			Desc:   "every shape of the grammar generated twice -- inline and as #/$defs/Def referenced by x -- and both emitted programs run on the SAME symbolic document: same verdict",
+			Bounds: "shapes G(1,1) with reduced constraint shapes, exact-grid values, document arrays <= 2",
+			Quick:  map[string]int{"GRID": 2, "GRIDMAG": 36, "N": 1, "NUMSHAPES": 3, "STRSHAPES": 3, "ARRSHAPES": 2, "KINDS": 8143, "DEPTH": 0},
+			Thor:   map[string]int{"GRID": 2, "GRIDMAG": 36, "N": 2, "NUMSHAPES": 3, "STRSHAPES": 3, "ARRSHAPES": 3},
+			Panic:  "inconclusive"},
+		{Name: "inline-vs-ref/arrays", Harness: "pkg/generator:HarnessC10", Layer: "L3",
+			Desc:   "same for array shapes",
+			Bounds: "arrays of numbers/strings, document arrays <= 1 element",
+			Quick:  map[string]int{"GRID": 2, "GRIDMAG": 36, "N": 1, "NUMSHAPES": 2, "STRSHAPES": 2, "ARRSHAPES": 3, "KINDS": 16, "DEPTH": 1, "ITEMKINDS": 3},
+			Panic:  "inconclusive"},
+		{Name: "shared-and-recursive-definition", Harness: "pkg/generator:HarnessC10Shared", Layer: "L3",
+			Desc:   "one self-referencing definition (#/$defs/ and #/definitions/ spellings) used by two properties and an array: generation terminates, exactly one Go type is declared for it, documents nested three levels decode with their values",
+			Bounds: "one recursive definition, nesting depth 3",
+			Panic:  "inconclusive"},
+		{Name: "refs-across-documents", Harness: "pkg/generator:HarnessC20", Layer: "L3", Only: "C10.",
+			Desc:   "two documents in one run, each with its own definition named Base behind the same reference string #/$defs/Base inside allOf: the emitted Money type enforces ITS document's Base (symbolic minLength, symbolic document)",
+			Bounds: "two files, three package layouts, both argument orders",
+			Panic:  "inconclusive"},
+	}})
 	reg(&Property{ID: "C12", Units: []Unit{
 		{Name: "map-order-schedules", Harness: "pkg/generator:HarnessC12", Layer: "L3", MapOrd: 5, SameEmits: true,
 			Desc:   "every `range` over a Go map executed in repository code (sites discovered dynamically: sortedKeys, sortDefinitionsByName, Sources, beginOutput, hasDecl...) is a schedule choice; all orders of maps with <= 3 entries are explored and every schedule must emit byte-identical files under identical names (hole terms compared syntactically)",
